@@ -138,7 +138,8 @@ pub fn sentinel() -> Cell {
 /// Face of every written cell and of the writers: not the default one, so that the face fill of
 /// cells skipped by a tab/newline is observable wherever it lands.
 fn pen() -> Face {
-    Face::new(Some(RGBA::new(200, 10, 10, 255)), Some(RGBA::new(9, 9, 90, 255)), FaceAttrs::EMPTY)
+    // the background is translucent: composing the face once more than another path does gives another colour
+    Face::new(Some(RGBA::new(200, 10, 10, 255)), Some(RGBA::new(9, 200, 90, 128)), FaceAttrs::EMPTY)
 }
 
 const NSYM: usize = 12;
